@@ -43,6 +43,11 @@ const (
 	// compared under it: the store accounts an unwritten item by Item.Val and a written one by its
 	// record, so they depend on when each node was built.
 	CBSwap CBMask = 1 << 9
+	// CBTouchOther: BeforeItemWrite (i.e. the middle of a Flush or Collection.Write) re-sets one
+	// existing item of ANOTHER collection to exactly the key, value and priority it already has:
+	// that collection gets a new, unwritten version between the moment Flush pinned its version
+	// and the moment Flush writes it, while its contents stay the same.
+	CBTouchOther CBMask = 1 << 10
 )
 
 func swapSum(key, val []byte) [4]byte {
@@ -88,6 +93,7 @@ func (e *Env) Totals(m *model.Coll) (uint64, uint64) {
 type Config struct {
 	ReaderInRevert   bool // a reader goroutine calls GetCollectionNames in the middle of every FlushRevert
 	IterAcrossRevert bool // an unfinished iterator is open across every FlushRevert
+	RefOnly          bool // with RefMon: ItemAddRef/ItemDecRef without ItemAlloc (items made by the store start at one)
 	Recycle          bool // with RefMon: items whose count reaches zero are wiped (recycling allocator)
 	NoCmpCallback    bool // never install KeyCompareForCollection (the case keeps every state it loads in the default order)
 	MemOnly          bool
@@ -171,6 +177,11 @@ type Env struct {
 	depthEpoch    int64
 	depthName     string
 	swapBad       int64
+	touching      bool
+	touchedStep   int
+	touches       int64
+	// DstPre, when set, makes the next CopyTo copy into a file that already holds this store.
+	DstPre *DstPre
 	// Loading is the model state a reload in progress (open, FlushRevert) is loading; nil otherwise.
 	Loading          *model.State
 	nilDefaultCmp    bool
@@ -190,7 +201,10 @@ func NewEnvCmps(name string, cfg Config, cmps map[string]model.Cmp) *Env {
 		cfg.Decode, cfg.Walk = false, false // both verify the byte aggregates, which CBSwap leaves undefined
 	}
 	if cfg.RefMon {
-		cfg.CB |= CBAlloc | CBRef
+		cfg.CB |= CBRef
+		if !cfg.RefOnly {
+			cfg.CB |= CBAlloc
+		}
 	}
 	e := &Env{Cfg: cfg, Name: name, H: map[string]*gkvlite.Collection{}, M: model.NewStore(),
 		Stats: map[string]int64{}, Cmps: cmps}
@@ -198,6 +212,7 @@ func NewEnvCmps(name string, cfg Config, cmps map[string]model.Cmp) *Env {
 	if cfg.RefMon {
 		e.RC = NewRefMon()
 		e.RC.Recycle = cfg.Recycle
+		e.RC.BaseOne = cfg.RefOnly
 	}
 	if !cfg.MemOnly {
 		e.F = vfile.New(name)
@@ -432,6 +447,31 @@ func (e *Env) callbacks() gkvlite.StoreCallbacks {
 				return i, fmt.Errorf("harness codec: the %d value bytes read back for key %s do not carry the checksum they were written with", len(i.Val), kvString(i.Key))
 			}
 			i.Val = v
+			return i, nil
+		}
+	}
+	if m&CBTouchOther != 0 {
+		inner := cb.BeforeItemWrite
+		cb.BeforeItemWrite = func(c *gkvlite.Collection, i *gkvlite.Item) (*gkvlite.Item, error) {
+			if !e.touching && e.S != nil && e.touchedStep != e.Step && e.Fault == nil { // (not while a fault is armed: the harness call would consume or swallow it)
+				e.touching = true
+				e.touchedStep = e.Step
+				for _, n := range e.M.Live.Names() {
+					oc, mc := e.H[n], e.M.Live.Colls[n]
+					if n == c.Name() || oc == nil || len(mc.Items) == 0 {
+						continue
+					}
+					kv := mc.Sorted()[0]
+					if oc.SetItem(&gkvlite.Item{Key: append([]byte{}, kv.Key...), Val: append(make([]byte, 0, len(kv.Val)), kv.Val...), Priority: kv.Prio}) == nil {
+						atomic.AddInt64(&e.touches, 1)
+					}
+					break
+				}
+				e.touching = false
+			}
+			if inner != nil {
+				return inner(c, i)
+			}
 			return i, nil
 		}
 	}
@@ -978,6 +1018,9 @@ func OpenCopyAndCompare(e *Env, b []byte, st *model.State, label string) {
 
 // AfterStep runs the always-on monitors.
 func (e *Env) AfterStep() {
+	if n := atomic.LoadInt64(&e.touches); n > 0 {
+		e.Stats["other-collection-touched-during-flush"] = n
+	}
 	if n := atomic.LoadInt64(&e.cmpOutsideReload); n > 0 {
 		e.Stats["cmp-callback-outside-reload"] = n
 	}
@@ -1061,4 +1104,10 @@ func NewEnvOnImage(name string, cfg Config, cmps map[string]model.Cmp, img []byt
 	e.F.KeepLog = cfg.KeepLog
 	e.open()
 	return e
+}
+
+// DstPre describes the pre-existing contents of a CopyTo destination file.
+type DstPre struct {
+	Img   []byte
+	State *model.State
 }
